@@ -845,6 +845,13 @@ func propC19StdLog(t *rapid.T) {
 	log.SetFlags(flags)
 	log.SetPrefix(prefix)
 	log.SetOutput(prior)
+	var priorW io.Writer = prior
+	if rapid.IntRange(0, 3).Draw(t, "priorWriterIsZaps") == 0 {
+		// the application had pointed the standard logger at zap by hand (NewStdLog's writer) and kept its own flags and
+		// prefix: settings like any other
+		priorW = zap.NewStdLog(zap.New(zapcore.NewCore(zapcore.NewJSONEncoder(zapcore.EncoderConfig{MessageKey: "m"}), prior, zapcore.DebugLevel))).Writer()
+		log.SetOutput(priorW)
+	}
 	sink := &memSink{}
 	lg := zap.New(zapcore.NewCore(zapcore.NewJSONEncoder(zapcore.EncoderConfig{MessageKey: "m", LevelKey: "l", EncodeLevel: zapcore.LowercaseLevelEncoder}), sink, zapcore.DebugLevel),
 		zap.WithFatalHook(countHook{new(int64)}), zap.WithPanicHook(countHook{new(int64)}))
@@ -865,8 +872,8 @@ func propC19StdLog(t *rapid.T) {
 		if undo != nil {
 			t.Fatalf("failed redirection returned a restore function")
 		}
-		if log.Flags() != flags || log.Prefix() != prefix || log.Writer() != io.Writer(prior) {
-			t.Fatalf("failed RedirectStdLogAt(level %d) changed the standard logger: flags %d->%d prefix %q->%q writer changed=%v", lvl, flags, log.Flags(), prefix, log.Prefix(), log.Writer() != io.Writer(prior))
+		if log.Flags() != flags || log.Prefix() != prefix || log.Writer() != priorW {
+			t.Fatalf("failed RedirectStdLogAt(level %d) changed the standard logger: flags %d->%d prefix %q->%q writer changed=%v", lvl, flags, log.Flags(), prefix, log.Prefix(), log.Writer() != priorW)
 		}
 		log.Print("still prior")
 		if len(prior.writes) != 1 || len(sink.writes) != 0 {
@@ -1078,6 +1085,32 @@ func propC19Registry(t *rapid.T) {
 		if len(ctlOpened) != 1 || !strings.Contains(string(ctlOpened[0].data), `"msg":"x"`) {
 			t.Fatalf("the rejected RegisterEncoder(\"json\") replaced the built-in encoder: %q", ctlOpened[0].data)
 		}
+	}
+	if rapid.IntRange(0, 7).Draw(t, "constructorPanics") == 0 {
+		// an encoder constructor is user code: if it panics during Build (the caller recovers), the registry is as
+		// usable afterwards as it was before - for registrations and for other Builds
+		pname := "panics" + uniq
+		if err := zap.RegisterEncoder(pname, func(zapcore.EncoderConfig) (zapcore.Encoder, error) { panic("constructor panics") }); err != nil {
+			t.Fatalf("RegisterEncoder(%q): %v", pname, err)
+		}
+		pc := zap.NewProductionConfig()
+		pc.Encoding, pc.OutputPaths, pc.ErrorOutputPaths, pc.Sampling = pname, []string{ctlScheme + "://ok/out-panics"}, nil, nil
+		func() {
+			defer func() { _ = recover() }()
+			_, _ = pc.Build()
+		}()
+		c19Watchdog(t, "RegisterEncoder after an encoder constructor panicked during Build", pname, func() {
+			if err := zap.RegisterEncoder("after"+pname, ctor); err != nil {
+				t.Fatalf("RegisterEncoder after a constructor panic: %v", err)
+			}
+		})
+		c19Watchdog(t, "Build after an encoder constructor panicked during an earlier Build", pname, func() {
+			bc := zap.NewProductionConfig()
+			bc.OutputPaths, bc.ErrorOutputPaths, bc.Sampling = []string{ctlScheme + "://ok/out-after-panic"}, nil, nil
+			if _, err := bc.Build(); err != nil {
+				t.Fatalf("Build after a constructor panic: %v", err)
+			}
+		})
 	}
 	statCase("C19", !wantOK, "registry|"+kind+"|"+fmt.Sprint(encOK), "registry "+kind)
 }
